@@ -524,3 +524,59 @@ func init() {
 			return false, ""
 		})
 }
+
+// kfOmit is a record whose decoder - like encoding/json with omitempty, the codec of the
+// README's record example - leaves alone what its input does not mention.
+type kfOmit struct {
+	N     uint32
+	Email string
+}
+
+func (p *kfOmit) MarshalBinary() ([]byte, error) {
+	out := []byte{byte(p.N >> 24), byte(p.N >> 16), byte(p.N >> 8), byte(p.N)}
+	return append(out, p.Email...), nil
+}
+
+func (p *kfOmit) UnmarshalBinary(b []byte) error {
+	if len(b) < 4 {
+		return fmt.Errorf("short")
+	}
+	p.N = uint32(b[0])<<24 | uint32(b[1])<<16 | uint32(b[2])<<8 | uint32(b[3])
+	if len(b) > 4 {
+		p.Email = string(b[4:]) // an absent e-mail is not mentioned: the field is left alone
+	}
+	return nil
+}
+
+func init() {
+	registerKF("f29-record-merge-reuses-dirty-pooled-record", "C01,C09",
+		"the record merge decoded stored value and delta into pooled record instances without resetting them: with a decoder that leaves unmentioned fields alone (encoding/json, the README's example codec) a merge saw fields of the record the instance had been used for before",
+		func() (bool, string) {
+			c := column.NewCollection(column.Options{Vacuum: 24 * 3600 * 1e9})
+			defer c.Close()
+			c.CreateColumn("p", column.ForRecord(func() *kfOmit { return new(kfOmit) }, column.WithMerge(func(v, d *kfOmit) *kfOmit {
+				v.N += d.N
+				if d.Email != "" {
+					v.Email = d.Email
+				}
+				return v
+			})))
+			c.Insert(func(r column.Row) error { r.SetRecord("p", &kfOmit{N: 1, Email: "a@x"}); return nil })
+			c.Insert(func(r column.Row) error { r.SetRecord("p", &kfOmit{N: 1}); return nil })
+			for i := 0; i < 4; i++ {
+				c.QueryAt(0, func(r column.Row) error { r.MergeRecord("p", &kfOmit{N: 1}); return nil })
+				c.QueryAt(1, func(r column.Row) error { r.MergeRecord("p", &kfOmit{N: 1}); return nil })
+			}
+			var got *kfOmit
+			c.QueryAt(1, func(r column.Row) error {
+				if v, ok := r.Record("p"); ok {
+					got = v.(*kfOmit)
+				}
+				return nil
+			})
+			if got == nil || got.N != 5 || got.Email != "" {
+				return true, fmt.Sprintf("row 1 was stored as {N:1} and merged with {N:1} four times; it reads %+v (the e-mail belongs to row 0)", got)
+			}
+			return false, ""
+		})
+}
